@@ -812,6 +812,19 @@ End AScan.
 Definition a_replace1 (s : byte) (repl : bytes) (data : bytes) : bytes :=
   flat_map (fun c => if Byte.eqb c s then repl else [c]) data.
 
+(* BytesReplacingReader in general: every leftmost, non-overlapping occurrence of search replaced,
+   the replacement itself not rescanned (bytes.Replace).  skip = bytes of a match still to drop. *)
+Fixpoint a_replace (search repl : bytes) (skip : nat) (l : bytes) : bytes :=
+  match l with
+  | [] => []
+  | c :: r =>
+      match skip with
+      | S k => a_replace search repl k r
+      | O => if prefix_eqb search l then repl ++ a_replace search repl (length search - 1) r
+             else c :: a_replace search repl 0 r
+      end
+  end.
+
 (* the charmap decoder *)
 Definition a_decode (cp : byte -> bytes) (data : bytes) : bytes := flat_map cp data.
 
